@@ -118,6 +118,7 @@ class CGWorld(World):
         # the right-hand side stored narrower than the operator and the caller's x (single-precision
         # measurements, double-precision solve): legal, the recurrences run in the promoted type.
         # (own generator: the plans of all other sessions stay what they were)
+        k["call_style"] = random.Random("cg-callstyle:%d" % seed).choice(["keyword"] * 7 + ["positional"] * 2 + ["minimal"])
         k["b_narrow"] = k["prec"] == "double" and not k["x_narrow"] and random.Random("cg-bnarrow:%d" % seed).random() < 0.08
         if k["b_narrow"]:
             b = b.astype(np.complex64 if cplx else np.float32)
@@ -344,8 +345,17 @@ class CGWorld(World):
             healthy = max(0, healthy - 1) if healthy < kmax else kmax
 
         # ---- construct the real solver
-        alg = common.lib_call("ConjugateGradient.__init__", -1, ConjugateGradient, A_cb, b, x_caller,
-                              P=P_cb, max_iter=plan["max_iter"], tol=plan["tol"])
+        cargs, ckw = (A_cb, b, x_caller), dict(P=P_cb, max_iter=plan["max_iter"], tol=plan["tol"])
+        if k.get("call_style") == "positional":
+            # the documented parameter order, by position
+            cargs, ckw = common.as_positional("ConjugateGradient", cargs, ckw)
+            stats["buggify.positional_arguments"] += 1
+        elif k.get("call_style") == "minimal":
+            # arguments equal to their documented default are left out
+            ckw = {kk_: vv_ for kk_, vv_ in ckw.items()
+                   if not ((kk_ == "P" and vv_ is None) or (kk_ == "tol" and vv_ == 0) or (kk_ == "max_iter" and vv_ == 100))}
+            stats["buggify.defaults_left_out"] += 1
+        alg = common.lib_call("ConjugateGradient.__init__", -1, ConjugateGradient, *cargs, **ckw)
         stats["steps"] += 1
         bad = ledger.verify(outputs=[x_caller])
         if bad:
@@ -515,7 +525,7 @@ class CGWorld(World):
         res.fingerprint = codec.json_digest([
             k["klass"], prec, bool(k["complex"]), n, k["family"], k["Aform"], k["Pkind"], k.get("Pform"),
             k["shape"], k["bkind"], k["x0kind"], k.get("A_ret"), k.get("P_ret"), bool(k.get("interfere")),
-            bool(k.get("x_narrow")), bool(k.get("b_narrow")), bool(k.get("views")), plan["max_iter"],
+            bool(k.get("x_narrow")), bool(k.get("b_narrow")), bool(k.get("views")), k.get("call_style"), plan["max_iter"],
             plan["tol"] > 0, [f["kind"] for f in plan.get("faults", [])], common.compress_actions(acts),
         ])
         if Aproxy is not None:
